@@ -2,7 +2,7 @@
    readers (Ref/NetpbmReader.v). *)
 From Coq Require Import ZArith List Bool Lia ZifyBool QArith.
 From Coq Require String Ascii.
-From Segno Require Import Base.PyLite Ref.IsoData Model.Iter Model.Color Ref.Pixel Model.Netpbm Ref.NetpbmReader.
+From Segno Require Import Base.PyLite Base.PyCase Ref.IsoData Model.Iter Model.Color Ref.Pixel Model.Netpbm Ref.NetpbmReader.
 Import String.StringSyntax.
 Import ListNotations.
 Open Scope Z_scope.
@@ -899,7 +899,7 @@ Qed.
 Theorem color_to_rgba_err c af e : color_to_rgba c af = Err e -> e = ValueError.
 Proof.
   unfold color_to_rgba. intros H. destruct c as [s|parts].
-  - destruct (assoc_str (lower s) NAME2RGB) as [[[r g] b]|]; [discriminate|].
+  - destruct (assoc_str (py_lower s) NAME2RGB) as [[[r g] b]|]; [discriminate|].
     destruct (hex_to_rgb_or_rgba s af) as [l|e'] eqn:Eh.
     + destruct l as [|r [|g [|b [|a l]]]]; discriminate.
     + apply hex_err in Eh. subst e'. now inversion H.
@@ -1003,7 +1003,7 @@ Theorem color_to_rgba_ok c af l : color_to_rgba c af = Ok l ->
   exists r g b a, l = [r; g; b; a] /\ byte_val r /\ byte_val g /\ byte_val b /\ (af = false -> byte_val a).
 Proof.
   unfold color_to_rgba. intros H. destruct c as [s|parts].
-  - destruct (assoc_str (lower s) NAME2RGB) as [[[r g] b]|] eqn:En.
+  - destruct (assoc_str (py_lower s) NAME2RGB) as [[[r g] b]|] eqn:En.
     + apply Ok_inj in H. subst l. exists r, g, b, (opaque af).
       apply assoc_str_in in En. destruct En as [k' Hin].
       pose proof NAME2RGB_bytes as Hall. rewrite forallb_forall in Hall. specialize (Hall _ Hin). cbv beta iota in Hall.
